@@ -261,3 +261,110 @@ def note_length_arithmetic(ctx):
     hyp = list(st.pc)
     return [("struck_out_iff_overlap", hyp, struck == (on_t + v > next_on), f"`{test}`  <=>  on + note_value > next_on"),
             ("new_duration_is_best_fit", hyp, new_off - on_t == best, f"after `off {aug[1]}= {aug[2]}` with correction = `{exprs['correction']}`: off - on == best_fit")]
+
+
+@lemma("load_rescaling_no_drift", ["C13"])
+def load_rescaling_no_drift(ctx):
+    """Tick rescaling in `MidiFile.convert`, on the real statements (scaling factor, accumulation, rounding; read from the source on every run)
+    executed symbolically for two consecutive messages with delta times d1, d2 >= 0 and any file resolution > 0 (FLOAT-EXACT): the scaling
+    factor is exactly PPQN / file resolution, and BOTH rounded positions are within half a tick of their exact rational positions
+    d1*PPQN/res and (d1+d2)*PPQN/res -- the rounding error of the first message does not enter the second (no accumulation)."""
+    import ast as _ast
+    from pyvc.engine import Exec, State, mk_heap
+    from pyvc.values import Num, Ref, VCError
+    fn, _ = ctx.sources.find("MidiFile.convert")
+    found = {}
+    for n in _ast.walk(fn):
+        if isinstance(n, _ast.Assign) and len(n.targets) == 1 and isinstance(n.targets[0], _ast.Name) and n.targets[0].id in ("scaling_factor", "rounded_point_in_time"):
+            found.setdefault(n.targets[0].id, n.value)
+        if isinstance(n, _ast.AugAssign) and isinstance(n.target, _ast.Name) and n.target.id == "current_point_in_time" and isinstance(n.op, _ast.Add):
+            found.setdefault("step", n.value)
+    if set(found) != {"scaling_factor", "rounded_point_in_time", "step"}:
+        raise KeyError(f"convert: rescaling statements not found ({sorted(found)})")
+    res, d1, d2 = z3.Ints("file_resolution d1 d2")
+    X = Exec(ctx, "lemma", None, silent=True)
+    st = State({}, mk_heap(ctx), [], {})
+    selfv, m1, m2 = Ref(z3.Int("self"), "MidiFile"), Ref(z3.Int("m1"), "MidiMessage"), Ref(z3.Int("m2"), "MidiMessage")
+    st.env = {"self": selfv}
+    for k_, v_ in ctx.globals.items():
+        st.env.setdefault(k_, v_)
+    try:
+        st.heap["PPQN"] = z3.Store(st.heap["PPQN"], selfv.v, res) if "PPQN" in st.heap else None
+    except Exception:
+        pass
+    if st.heap.get("PPQN") is None:
+        # the file resolution is an attribute of MidiFile that the schema does not list: bind it through a local name instead
+        class _R(_ast.NodeTransformer):
+            def visit_Attribute(self, node):
+                if isinstance(node.value, _ast.Name) and node.value.id == "self" and node.attr == "PPQN":
+                    return _ast.copy_location(_ast.Name(id="file_resolution__", ctx=_ast.Load()), node)
+                return self.generic_visit(node)
+        found = {k: _ast.fix_missing_locations(_R().visit(v)) for k, v in found.items()}
+        st.heap.pop("PPQN", None)
+        st.env["file_resolution__"] = Num(res)
+    X.write_field(st, m1, "time", Num(d1))
+    X.write_field(st, m2, "time", Num(d2))
+    try:
+        f = X.ev(found["scaling_factor"], st)
+        st.env["scaling_factor"] = f
+        st.env["current_point_in_time"] = Num(0)
+        pos = []
+        for m in (m1, m2):
+            st.env["msg"] = m
+            inc = X.ev(found["step"], st)
+            cur = st.env["current_point_in_time"]
+            st.env["current_point_in_time"] = Num(cur.as_real() + inc.as_real(), real=True)
+            pos.append(X.ev(found["rounded_point_in_time"], st))
+    except VCError as e:
+        raise ValueError(f"rescaling statements outside the modelled subset: {e}")
+    P = ctx.consts["settings"]["PPQN"]
+    hyp = [res > 0, d1 >= 0, d2 >= 0, m1.v != m2.v] + list(st.pc)
+    ex1 = z3.ToReal(d1) * P / z3.ToReal(res)
+    ex2 = z3.ToReal(d1 + d2) * P / z3.ToReal(res)
+    r1, r2 = (p_.as_real() for p_ in pos)
+    half = z3.RealVal("1/2")
+    return [("factor_is_the_exact_ratio", hyp, f.as_real() * z3.ToReal(res) == P, f"`{_ast.unparse(found['scaling_factor'])}` * file resolution == PPQN"),
+            ("first_within_half_a_tick", hyp, z3.And(r1 - ex1 <= half, ex1 - r1 <= half), "position of the first message"),
+            ("second_within_half_a_tick_no_drift", hyp, z3.And(r2 - ex2 <= half, ex2 - r2 <= half), "position of the second message: the first rounding does not accumulate")]
+
+
+@lemma("split_wait_arithmetic", ["C08"])
+def split_wait_arithmetic(ctx):
+    """Arithmetic of cutting a wait at a capacity boundary in `RelativeSequence.split`, on the real source (read on every run): in the branch
+    where the wait does not fit (`not msg.time <= remaining_capacity`), the wait written into the current piece has exactly the remaining
+    capacity, the wait carried into the next piece has `carry_time`, carry_time > 0, and the two add up to the original wait."""
+    import ast as _ast
+    from pyvc.engine import Exec, State, mk_heap
+    from pyvc.values import Num
+    fn, _ = ctx.sources.find("RelativeSequence.split")
+    carry, fits, waits = None, None, []
+    for n in _ast.walk(fn):
+        if isinstance(n, _ast.Assign) and len(n.targets) == 1 and isinstance(n.targets[0], _ast.Name) and n.targets[0].id == "carry_time" and carry is None:
+            carry = n.value
+        if isinstance(n, _ast.If) and fits is None and "remaining_capacity" in _ast.unparse(n.test) and "msg.time" in _ast.unparse(n.test) and any(isinstance(x, _ast.AugAssign) for x in n.body):
+            fits = n.test
+        if isinstance(n, _ast.Call) and isinstance(n.func, _ast.Name) and n.func.id == "Message":
+            kw = {k.arg: k.value for k in n.keywords}
+            if "time" in kw and "WAIT" in _ast.unparse(kw.get("message_type", _ast.Constant(value=""))):
+                waits.append((n.lineno, kw["time"]))
+    waits.sort()
+    if carry is None or fits is None or len(waits) != 2:
+        raise KeyError(f"split: wait-cutting statements not found (carry={carry is not None}, test={fits is not None}, waits={len(waits)})")
+    t, rem = z3.Ints("wait_time remaining_capacity")
+
+    class _R(_ast.NodeTransformer):
+        def visit_Attribute(self, node):
+            if isinstance(node.value, _ast.Name) and node.value.id == "msg" and node.attr == "time":
+                return _ast.copy_location(_ast.Name(id="wait_time", ctx=_ast.Load()), node)
+            return self.generic_visit(node)
+    fix = lambda e: _ast.fix_missing_locations(_R().visit(_ast.parse(_ast.unparse(e), mode="eval").body))
+    X = Exec(ctx, "lemma", None, silent=True)
+    st = State({}, mk_heap(ctx), [], {})
+    st.env = {"wait_time": Num(t), "remaining_capacity": Num(rem)}
+    does_fit = X.truth(X.ev(fix(fits), st), st)
+    st.env["carry_time"] = X.ev(fix(carry), st)
+    first, second = X.ev(fix(waits[0][1]), st), X.ev(fix(waits[1][1]), st)
+    hyp = [t >= 0, rem >= 0, z3.Not(does_fit)] + list(st.pc)
+    return [("first_part_fills_the_piece", hyp, first.v == rem, f"`{_ast.unparse(waits[0][1])}` == remaining capacity"),
+            ("carried_part_is_positive", hyp, second.v > 0, f"`{_ast.unparse(waits[1][1])}` > 0"),
+            ("parts_add_up", hyp, first.v + second.v == t, "the two waits add up to the wait that was cut")]
